@@ -40,6 +40,7 @@ type Ctx struct {
 type specInst struct {
 	heaps []string // heap keys passed as leading params
 	res   types.Type
+	recAxiom string // full definitional axiom of a recursive spec function (used only by confirmation queries)
 }
 
 func newCtx(prog *Program, cs *ContractSet, pkg *types.Package, fmode string) *Ctx {
